@@ -96,7 +96,7 @@ func applyDiff(n *sbom.Node, d *sbom.NodeDiff) *sbom.Node {
 func genC14Pair(t *rapid.T) (*sbom.Node, *sbom.Node, string) {
 	text := textNoMeta()
 	n := genC13Node(t, "n", text)
-	mode := rapid.SampledFrom([]string{"same", "1", "2", "5", "independent", "perm", "empty_vs_absent", "duplicates", "duplicates_first", "dup_then_replace"}).Draw(t, "mode")
+	mode := rapid.SampledFrom([]string{"same", "1", "2", "5", "independent", "perm", "empty_vs_absent", "duplicates", "duplicates_first", "dup_then_replace", "empty_map_value"}).Draw(t, "mode")
 	var n2 *sbom.Node
 	mutate := func(k int) {
 		n2 = proto.Clone(n).(*sbom.Node)
@@ -135,6 +135,27 @@ func genC14Pair(t *rapid.T) (*sbom.Node, *sbom.Node, string) {
 			if len(e.Hashes) == 0 {
 				e.Hashes, n.ExternalReferences[i].Hashes = map[int32]string{}, nil
 			}
+		}
+	case "empty_map_value":
+		// the second node gains / changes / loses a map entry whose value is the empty string
+		n2 = proto.Clone(n).(*sbom.Node)
+		if n2.Hashes == nil {
+			n2.Hashes = map[int32]string{}
+		}
+		if n2.Identifiers == nil {
+			n2.Identifiers = map[int32]string{}
+		}
+		switch rapid.IntRange(0, 3).Draw(t, "emv") {
+		case 0:
+			n2.Hashes[77] = ""
+		case 1:
+			n2.Identifiers[78] = ""
+		case 2:
+			n.Hashes = map[int32]string{3: "abc"}
+			n2.Hashes = map[int32]string{3: ""}
+		case 3:
+			n.Identifiers = map[int32]string{1: "", 2: "x"}
+			n2.Identifiers = map[int32]string{2: "x"}
 		}
 	case "duplicates_first", "dup_then_replace":
 		// the FIRST node carries repeated elements; the second drops the repetition or replaces one copy by a
